@@ -415,10 +415,6 @@ impl Writer {
         // Append log entry
         let datafile_entry = DataFileEntry { tstamp, key, value };
         let index = self.writer.append(&datafile_entry)?;
-        // Sync immediately if the strategy is "always"
-        if let SyncStrategy::Always = self.ctx.conf.sync {
-            self.writer.sync()?;
-        }
         // Record number of bytes have been written to the active file
         self.written_bytes += index.len;
 
@@ -444,6 +440,22 @@ impl Writer {
                 active_dead_bytes = %stats.dead_bytes,
                 "appended new log entry"
             );
+        }
+
+        // Sync immediately if the strategy is "always". This comes after the accounting: when it
+        // fails the entry stays in the file without being indexed, so it is a dead entry. A file
+        // holding an entry that the statistics do not know about might never be merged
+        if let SyncStrategy::Always = self.ctx.conf.sync {
+            if let Err(e) = self.writer.sync() {
+                if datafile_entry.value.is_some() {
+                    self.ctx
+                        .stats
+                        .entry(self.active_fileid)
+                        .or_default()
+                        .overwrite(index.len);
+                }
+                return Err(e.into());
+            }
         }
 
         let keydir_entry = KeyDirEntry {
